@@ -23,7 +23,7 @@ FORMS = ['keys-int', 'keys-name', 'keys-mixed', 'mapping-int', 'mapping-name', '
          'convenience-values', 'convenience-kw', 'name', 'fromkeysvalues', 'full-values']
 BAD = ['length-mismatch', 'length-mismatch-grades', 'keys-outside-grades', 'kw-outside-grades', 'invalid-grade', 'negative-grade',
        'graded-incomplete-keys', 'graded-incomplete-mapping', 'graded-incomplete-kw', 'graded-incomplete-name', 'graded-incomplete-fromkw-perm',
-       'kw-blade-outside-algebra']
+       'kw-blade-outside-algebra', 'repeated-grade']
 KINDS = ['int', 'frac', 'float', 'str', 'sympy', 'ndarray']
 
 
@@ -424,6 +424,17 @@ def bad_case(ctx, alg, iso, cfg, name, what):
 
         def f():
             return alg.multivector(**valid, **{bad_name: 7})
+    elif what == 'repeated-grade':
+        # a grades tuple naming the same grade twice cannot describe a multivector: the value list would address blades twice
+        g = rng.randint(0, d)
+        n = 2 * len(alg.indices_for_grades[(g,)])
+        how = rng.choice(('values', 'name'))
+        desc = {'grades': [g, g], 'how': how, 'n_values': n}
+
+        def f():
+            if how == 'values':
+                return alg.multivector(values=list(range(1, n + 1)), grades=(g, g))
+            return alg.multivector(name='x', grades=(g, g))
     elif what == 'invalid-grade':
         g = d + rng.randint(1, 3)
         desc = {'grades': [g]}
